@@ -160,12 +160,10 @@ Qed.
 (* PARTIAL ("charge and multiplicity present").  Proved: on every generated charge / multiplicity line the
    documented reader returns exactly the species' charge and multiplicity (NWChem's `nopen` carries mult-1 and is
    read back as mult), for all integers.  The last two conjuncts only say that each listed program's SOURCE
-   contains a print statement for the field (ORCA, Gaussian 09/16, NWChem, Q-Chem, MOPAC charge; all but MOPAC
-   multiplicity).  MISSING: that the line is actually emitted for every keyword set — the control flow around the
-   print sites is not modelled.  It is in fact FALSE for NWChem: `mult` is inserted only into a dft block and
-   `nopen` only for scf tasks, so an mp2/ccsd task of a triplet gets no multiplicity at all (finding
-   nwchem.generate_input|mult-missing-without-dft-or-scf-task, implementation oracle in harness/c17.py).
-   MOPAC's spin keywords and xTB's command-line flags are checked by correspondence only. *)
+   contains a print statement for the field.  That the line is emitted for EVERY keyword set is proved for NWChem
+   (the only wrapper where it depends on the keywords) in nwchem_multiplicity_always_written below; for ORCA,
+   Gaussian and Q-Chem the charge/multiplicity line is printed unconditionally next to the coordinates (pinned,
+   checked by correspondence); MOPAC's spin keywords and xTB's command-line flags are correspondence only. *)
 Theorem charge_mult_lines_read_back_partial :
   (forall p k tpl, In (p, k, tpl) lines ->
      (k = LChargeMult \/ k = LCharge \/ k = LMult \/ k = LNopen) ->
@@ -185,6 +183,36 @@ Proof.
   - exact (proj1 (read_int_render p k tpl sc ex e FChg Hok Hex He Hf ltac:(auto))).
   - exact (proj1 (read_int_render p k tpl sc ex e FMult Hok Hex He Hf ltac:(auto 6))).
 Qed.
+
+(* NWChem writes a multiplicity line for every keyword set (the clause that was false before /repo 42fe139).
+   The guard of the trailing `scf / nopen` insertion is GENERATED (nwchem_tail_guard); the branch order of the
+   keyword loop is checked by the translator and modelled in Model.nw_loop.  For every list of translated keywords
+   in which no dft block is caught by the single-atom `opt` rewrite, the input carries a `mult` (dft) or a `nopen`
+   (scf) line written by the wrapper, or the user's own keywords already contain `nopen`. *)
+Theorem nwchem_multiplicity_always_written :
+  forall (task_scf : bool) (ks : list nwkw), dft_hit_by_opt1 ks = false ->
+  nw_spin_lines nwchem_tail_guard task_scf ks <> [] \/ user_nopen ks = true.
+Proof.
+  intros task_scf ks H. unfold nw_spin_lines. change nwchem_tail_guard with GuardNoDftNoNopen.
+  assert (Hk : forallb (fun k => negb (k_opt1 k && k_dft k)) ks = true).
+  { unfold dft_hit_by_opt1 in H. clear - H. induction ks as [|k r IH]; [reflexivity|].
+    cbn [existsb forallb] in *. apply orb_false_iff in H. destruct H as [H1 H2]. rewrite H1, (IH H2). reflexivity. }
+  pose proof (nw_loop_inv ks [] false false Hk) as I.
+  destruct (nw_loop ks [] false false) as [[a d] n]. destruct I as [_ [I2 I3]].
+  destruct d.
+  - left. cbn [negb andb]. apply I2; [discriminate|discriminate|reflexivity].
+  - destruct n.
+    + cbn [negb andb]. destruct (I3 eq_refl) as [E|[E|E]]; [left; exact E|right; exact E|discriminate].
+    + left. cbn [negb andb]. intros E. apply app_eq_nil in E. destruct E. discriminate.
+Qed.
+
+(* ... and the premise is needed: for a single atom, a dft block whose text contains "opt" (a functional called
+   optx, optc ...) is rewritten by the `opt` -> `energy` rule BEFORE the dft branch, so no `mult` is inserted and the
+   trailing guard sees a keyword starting with "dft": no multiplicity line at all.  Replays on the implementation
+   as finding nwchem.generate_input|single-atom-opt-rewrite-hits-dft-block (harness/c17.py). *)
+Theorem nwchem_multiplicity_single_atom_opt_refuted :
+  exists ks, dft_hit_by_opt1 ks = true /\ nw_spin_lines nwchem_tail_guard false ks = [] /\ user_nopen ks = false.
+Proof. exists [mkNw true false false true]. vm_compute. repeat split. Qed.
 
 (* Point charges: position within 1e-5 Angstrom and charge within 1e-5 e of the exact values (every generated
    point-charge spec is fixed point with at least 5 decimals: swept by line_ok / spec_ok). *)
